@@ -25,6 +25,10 @@ struct Exact {
 
 void engineCodec(const std::vector<std::string> &, const std::vector<std::string> &lines)
 {
+    // objects that live across operations: decoding into (or assigning over) a value that already holds data must be as
+    // safe as decoding into a fresh one ("any message that is returned can be re-encoded without a memory error")
+    Record reusedRecord;
+    Record latest;
     for (const std::string &l : lines) {
         auto w = io::words(l);
         if (w.empty()) continue;
@@ -44,6 +48,7 @@ void engineCodec(const std::vector<std::string> &, const std::vector<std::string
             }
             if (ok) {
                 outLine("OK " + io::tokOfMessage(m));
+                if (!m.records().isEmpty()) latest = m.records().last();
                 // any message that is returned can be re-encoded without a memory error
                 QByteArray again;
                 toPacket(m, again);
@@ -72,6 +77,12 @@ void engineCodec(const std::vector<std::string> &, const std::vector<std::string
             }
             if (ok) outLine("OK " + io::tokOfRecord(r) + " " + std::to_string(off));
             else outLine("FAIL");
+            {
+                // the same bytes once more, into a record that has been used before (result not printed)
+                Exact e2(io::bstrOfTok(w[1]));
+                quint16 off2 = quint16(std::stoul(w[2]));
+                parseRecord(e2.arr, off2, reusedRecord);
+            }
         } else {
             throw std::runtime_error("codec op: " + l);
         }
